@@ -77,5 +77,12 @@ fn main() {
         eprintln!("unknown property {}", id);
         std::process::exit(2);
     }
-    std::process::exit(ctx.finish());
+    // the tokio twin (crate hvt) runs first and leaves a summary that becomes part of this property's evidence
+    let side = format!("/verif/target/tokio-{}.json", id);
+    let mut side_viol = 0;
+    if std::path::Path::new(&side).exists() {
+        side_viol = ctx.merge_side(&side, "tokio:").unwrap_or(0);
+    }
+    let code = ctx.finish();
+    std::process::exit(if code == 0 && side_viol > 0 { 1 } else { code });
 }
